@@ -35,7 +35,14 @@ def _kinds_of_test(test, fold, param):
     """``fix_msg_type == FMsg.X [or fix_msg_type == FMsg.Y]`` -> [X, Y]"""
     parts = test.values if isinstance(test, ast.BoolOp) and isinstance(test.op, ast.Or) else [test]
     out = []
+    # `x in (A, B)` is the same disjunction
+    flat = []
     for p in parts:
+        if isinstance(p, ast.Compare) and len(p.ops) == 1 and isinstance(p.ops[0], ast.In) and isinstance(p.comparators[0], (ast.Tuple, ast.List, ast.Set)):
+            flat += [ast.Compare(p.left, [ast.Eq()], [e]) for e in p.comparators[0].elts]
+        else:
+            flat.append(p)
+    for p in flat:
         if not (isinstance(p, ast.Compare) and len(p.ops) == 1 and isinstance(p.ops[0], ast.Eq)):
             return None
         a, b = p.left, p.comparators[0]
@@ -77,15 +84,13 @@ def fold_tables(ctx, fn, fold):
         if not kinds:
             raise AnalysisError(f"{FN}: unrecognised kind test {short(node.test)}")
         assigns = [s for s in node.body if isinstance(s, ast.Assign)]
-        if len(assigns) != 1 or len(node.body) != 1 or not isinstance(assigns[0].value, ast.Dict):
-            raise AnalysisError(f"{FN}: branch for {kinds} is not a single literal-table assignment")
+        if not assigns or not isinstance(assigns[0].targets[0], ast.Name):
+            raise AnalysisError(f"{FN}: branch for {kinds} does not start with an assignment of the table")
         tgt = assigns[0].targets[0]
-        if not isinstance(tgt, ast.Name):
-            raise AnalysisError(f"{FN}: table target")
         if table_var not in (None, tgt.id):
             raise AnalysisError(f"{FN}: two table variables")
         table_var = tgt.id
-        folded = fold.fold(assigns[0].value)
+        folded = _build_table(node.body, tgt.id, fold, kinds)
         for k in kinds:
             if k in tables:
                 ctx.instance("C16.totality", f"kind[{k}]", False, "message kind handled by two branches", loc(node))
@@ -97,6 +102,33 @@ def fold_tables(ctx, fn, fold):
         else:
             raise AnalysisError(f"{FN}: dispatch chain has an else branch that is not a table")
     return tables, table_var, (p_status, p_kind, p_exec, p_msgstatus, p_raise), chain
+
+
+def _build_table(body, var, fold, kinds):
+    """The table a branch builds: a dict literal, or `dict.fromkeys(keys, row)`, then `var[k] = row` / `var.update({...})`."""
+    table = None
+    for st in body:
+        if isinstance(st, ast.Expr) and isinstance(st.value, ast.Constant):
+            continue
+        if isinstance(st, ast.Assign) and len(st.targets) == 1 and isinstance(st.targets[0], ast.Name) and st.targets[0].id == var:
+            v = st.value
+            if isinstance(v, ast.Dict):
+                table = dict(fold.fold(v))
+            elif isinstance(v, ast.Call) and unparse(v.func) == "dict.fromkeys" and len(v.args) == 2 and isinstance(v.args[0], (ast.Tuple, ast.List, ast.Set)):
+                row = fold.fold(v.args[1])
+                table = {fold.fold(k): row for k in v.args[0].elts}
+            else:
+                raise AnalysisError(f"{FN}: branch for {kinds}: table value `{short(v)}` is not a literal table")
+        elif isinstance(st, ast.Assign) and len(st.targets) == 1 and isinstance(st.targets[0], ast.Subscript) and unparse(st.targets[0].value) == var and table is not None:
+            table[fold.fold(st.targets[0].slice)] = fold.fold(st.value)
+        elif isinstance(st, ast.Expr) and isinstance(st.value, ast.Call) and unparse(st.value.func) == f"{var}.update" and len(st.value.args) == 1 \
+                and isinstance(st.value.args[0], ast.Dict) and table is not None:
+            table.update(fold.fold(st.value.args[0]))
+        else:
+            raise AnalysisError(f"{FN}: branch for {kinds} contains `{short(st)}`: not a literal-table construction")
+    if table is None:
+        raise AnalysisError(f"{FN}: branch for {kinds} builds no table")
+    return table
 
 
 def check_resolver(ctx, fn, table_var, params, chain):
